@@ -619,12 +619,17 @@ def bfs_shards(tier):
 
 
 def shards(tier, seed):
-    return bfs_shards(tier) + roundtrip.shards(tier)
+    from checks import c11_threads
+    return bfs_shards(tier) + roundtrip.shards(tier) + \
+        c11_threads.shards(tier, seed)
 
 
 def run_shard(shard):
     if shard[0] == "bfs":
         return run_bfs_shard(shard)
+    if shard[0] == "threads":
+        from checks import c11_threads
+        return c11_threads.run_shard(shard)
     return roundtrip.run_shard(shard)
 
 
@@ -636,6 +641,9 @@ def finish(tier, merged):
 
 
 def replay(case):
+    if case.get("part") == "threads":
+        from checks import c11_threads
+        return c11_threads.replay(case)
     if case.get("part") != "bfs":
         return roundtrip.replay(case)
     history = tuple(tuple(o) for o in case["history"])
